@@ -56,7 +56,7 @@ func normDotted(s string) string {
 
 func CheckC04(l *Lab, verifDir string) int {
 	rep := NewReport("C04", l.Tier, l.Seed, "exploration", verifDir)
-	rep.Rule = "tokens are minted through the real /connect flow from an issuing client address and presented over real tunnels from a presenting address: full cross product of an address set (quick 12, thorough 23 specifications: TCP peers 127.0.0.1 / 127.0.0.2 / 127.1.2.3 / ::1, X-Forwarded-For single values, chains of 2-5, leading spaces, empty first element, IPv6, values that are not IP literals (word, ip:port, zone, bracketed), zero-padded textual variants, two headers, a value equal to another specification's peer) x verification switch x transport, plus legacy tunnels whose OUT and IN connections come from different addresses and sessions that roam between addresses. Oracle: addr(request) = first X-Forwarded-For element if the header is present and non-empty, else the TCP peer; with verification on, equal strings => channel created and the connection lands on the host's listener, different IP => access-denied status, no dial hook event, no accept; same IP in another textual form => recorded only; with verification off always created. non-trivial = the channel-create step was answered; distinct = issuing x presenting x switch x transport x outcome"
+	rep.Rule = "tokens are minted through the real /connect flow from an issuing client address and presented over real tunnels from a presenting address: full cross product of an address set (quick 14, thorough 25 specifications: TCP peers 127.0.0.1 / 127.0.0.2 / 127.1.2.3 / ::1, X-Forwarded-For single values, chains of 2-5, leading spaces, empty first element, IPv6, values that are not IP literals (word, ip:port, zone, bracketed), zero-padded textual variants, two headers, a value equal to another specification's peer) x verification switch x transport, plus legacy tunnels whose OUT and IN connections come from different addresses and sessions that roam between addresses. Oracle: addr(request) = first X-Forwarded-For element if the header is present and non-empty, else the TCP peer; with verification on, equal strings => channel created and the connection lands on the host's listener, different IP => access-denied status, no dial hook event, no accept; same IP in another textual form => recorded only; with verification off always created. non-trivial = the channel-create step was answered; distinct = issuing x presenting x switch x transport x outcome"
 	addrs := []c04Addr{
 		{"peer-127.0.0.1", "127.0.0.1", nil},
 		{"peer-127.0.0.2", "127.0.0.2", nil},
@@ -70,6 +70,8 @@ func CheckC04(l *Lab, verifDir string) int {
 		{"xff-ip-with-port", "127.0.0.2", []string{"203.0.113.9:51000"}},
 		{"xff-ipv6", "127.0.0.1", []string{"2001:db8::1"}},
 		{"xff-other-ipv6", "127.0.0.2", []string{"2001:db8::2"}},
+		{"xff-two-header-lines", "127.0.0.1", []string{"10.0.0.7", "10.0.0.1"}},
+		{"xff-two-header-lines-swapped", "127.0.0.1", []string{"10.0.0.1", "10.0.0.7"}},
 	}
 	if !l.Quick() {
 		addrs = append(addrs,
@@ -82,7 +84,7 @@ func CheckC04(l *Lab, verifDir string) int {
 			c04Addr{"xff-ipv6-link-local", "127.0.0.1", []string{"fe80::1"}},
 			c04Addr{"xff-ipv6-expanded", "127.0.0.1", []string{"2001:0db8:0:0:0:0:0:1"}},
 			c04Addr{"xff-zero-padded", "127.0.0.2", []string{"127.000.000.001"}},
-			c04Addr{"xff-two-headers", "127.0.0.1", []string{"10.0.0.7", "10.0.0.1"}},
+			c04Addr{"xff-three-header-lines", "127.0.0.2", []string{"10.0.0.8, 10.0.0.9", "10.0.0.1", "10.0.0.7"}},
 		)
 		if c, err := net.Dial("tcp6", "[::1]:1"); err == nil || !strings.Contains(err.Error(), "cannot assign") {
 			if c != nil {
